@@ -2,7 +2,8 @@
 which check reports it: seeded/<id>/meta.json['caught_by'] and seeded/MATRIX.md.
 usage: python3 tools/seedmatrix.py [seed ids...]   (default: all);  env SEED_ALL=1: run every related check even after a catch"""
 import json, os, subprocess, sys, glob, re, time
-ROOT = '/verif/seeded'
+VERIF = os.environ.get('VERIF_DIR', '/verif')     # a vp-run snapshot may stand in for /verif
+ROOT = VERIF + '/seeded'
 WT = os.environ.get('SEED_WT', '/tmp/wt/seedm')
 OUT = '/tmp/wt/seedm-out'
 REL = {  # file -> checks whose contracts cover functions of that file
@@ -20,7 +21,7 @@ REL = {  # file -> checks whose contracts cover functions of that file
     'sensors.py': ['C19'], 'sensor.py': ['C19', 'C20'], 'part_sensor.py': ['C19', 'C20'], 'cms.py': ['C19'], 'system.py': ['C20', 'C14', 'C16'], 'asset.py': ['C16', 'C20'],
     'probes.py': ['C19'], 'utils.py': ['C14'],
 }
-manifest = json.load(open('/verif/MANIFEST.json'))
+manifest = json.load(open(VERIF + '/MANIFEST.json'))
 REG = [c['property_id'] for c in manifest['checks']]
 
 def sh(cmd, **kw):
@@ -46,7 +47,7 @@ def main():
         caught = {}
         for q in order:
             t0 = time.time()
-            r = sh(f'cd /verif && PYVC_OUT={OUT} SIMPROCESD_ROOT={WT} timeout 2400 ./check {q}')
+            r = sh(f'cd {VERIF} && PYVC_OUT={OUT} SIMPROCESD_ROOT={WT} timeout 2400 ./check {q}')
             lines = [l for l in r.stdout.splitlines() if l.startswith('VIOLATION') or l.startswith('  obligation')]
             obl = [re.sub(r'^\s*obligation (\S+).*', r'\1', l) for l in lines if l.startswith('  obligation')]
             replayed = sum(1 for l in lines if l.startswith('VIOLATION') and not l.rstrip().endswith('no-failing-input-found'))
